@@ -40,7 +40,7 @@ CHECKS["C11"] = {
             "argument maps (every combination of present/absent/arbitrary text values): which actions exist, their exact "
             "configs and defaults, location kind and position from stage/method_name/span.",
     "note": "args are Dict[str,str]; Position.from_stage by its own contract; convert_response / add_custom grouping clauses "
-            "are proved separately where listed in the evidence.",
+            "are proved separately: convert_response skips what it cannot interpret and the only key a tracepoint touches is its own location id (whole-view clause per iteration).",
 }
 CHECKS["C15"] = {
     "text": "ThreadLocal get/set/clear/is_set are proved to touch only the calling thread's entry of the instance's own store; CallbackContext.at_location equals the (file, function, opening-event) table; __process_call_backs processes the top pending context exactly once iff it matches and leaves the store consistent on every exit; the deferred snapshot callback captures the value returned / exception raised of this very event (arg) once, with the action context that collected the snapshot, adds it to the pending snapshot and hands that snapshot over exactly once; span callbacks close every span once.",
@@ -62,7 +62,7 @@ CHECKS["C06"] = {
             "process_capture_variable, _process_frame and collect are each proved to let nothing escape for every host "
             "value (signals {}); a snapshot action starts from its own empty table and identity cache.",
     "note": "child discovery may fail (declared signal) and is contained per node in search_function; "
-            "SnapshotActionContext._process_action is verified up to the call of collect() only (solver budget); "
+            "SnapshotActionContext._process_action is verified as a whole (19 paths; path cap 40: a body that needs more is undecided); "
             "__dict__ of an object is assumed to be an exact dict; protobuf conversion is C08.",
 }
 CHECKS["C02"] = {
@@ -73,7 +73,7 @@ CHECKS["C02"] = {
             "with the frame's index; should_collect_vars is the frame_type table; the snapshot names its tracepoint; "
             "watches are evaluated once each in the trigger's frame.",
     "note": "whole-graph fidelity = per-node contract + FIFO search + per-step stack walk, composed by an argument "
-            "(DESIGN.md), not a mechanised lemma; _process_action is verified up to collect(); children-by-kind is "
+            "(DESIGN.md), not a mechanised lemma; _process_action is verified as a whole (one collection from an empty table and cache, watches merged from tables of their own, exactly one snapshot result, the log line as a result of its own); children-by-kind is "
             "checked for sequences (exact prefix) and only structurally for dicts/objects; CPython delivers events on the "
             "reaching thread (trusted).",
 }
@@ -104,9 +104,9 @@ CHECKS["C19"] = {
             "default > DEEP_<KEY> environment > None with callables called; is_app_frame is proved (quantified "
             "search-loop invariants) to classify exactly by exclude-wins / include / app-root with the matching prefix; "
             "IN_APP_INCLUDE/EXCLUDE yield flat text lists; the poll interval and SERVICE_SECURE are accepted as text or "
-            "typed values.",
+            "typed values; deep.start resolves the application root as code value > DEEP_APP_ROOT > folder above the caller and hands every other code-supplied setting over unchanged.",
     "note": "own attributes / module attributes / environment are abstract partial maps; string prefix reasoning by "
-            "z3 with cvc5 as second back end; APP_ROOT derivation in deep.start and docs are not covered.",
+            "z3 with cvc5 as second back end; deep.start is verified as a prefix (up to the construction of the ConfigService: APP_ROOT given in code > DEEP_APP_ROOT > calculated, no other setting touched; inspect.stack is a trusted model); the documentation is not covered.",
 }
 CHECKS["C20"] = {
     "text": 'Plugin loading is proved element by element: an entry that cannot be imported yields nothing and does not end the import generator; a class that fails to construct or a plugin that is switched off is skipped, an active one is added exactly once, constructed with the config; the result is sorted once, ascending, by order() (None = 0). Plugin.is_active reads its own PLUGIN_<NAME> switch (absent -> active, otherwise the truthy table of its text). The ConfigService views yield exactly the plugins of their kind in loading order. Deep.start does nothing when started, otherwise loads plugins from the configured list, builds the resource asking every provider once (a failing provider costs only its own contribution), and starts tracing, connection and polling once each in order. Snapshot decoration asks every decorator once for this snapshot and action, merges only returned decorations, contains a failing decorator, and merges the result into the snapshot; the send result hands over exactly once after decorating. Per-iteration isolation is also proved for metric dispatch, span creation, span close and plugin shutdown; TriggerContext.__exit__ contains exceptions per result.',
@@ -142,9 +142,9 @@ CHECKS["C12"] = {
             "poll time; an update replaces hash and configuration together and queues exactly one listener update "
             "carrying them; every listener receives the polled configuration followed by the code-registered "
             "tracepoints and a failing listener does not stop the others; LongPoll.poll sends the current hash with "
-            "auth metadata, and when it fails no configuration state was touched.",
+            "auth metadata, and when it fails no configuration state was touched; the handler's listener installs every update it is handed; the timer loop calls the repeated function once per tick and no Exception from it ends the loop; LongPoll.start has created and started the repeating timer when it returns, whatever the first poll did.",
     "note": "the schedule clause ('never an older configuration under every interleaving of the two workers') is "
-            "outside this technique: no thread semantics; RepeatedTimer loop survival is not covered.",
+            "outside this technique: no thread semantics.",
 }
 CHECKS["C13"] = {
     "text": "add_custom is proved to build the trigger from the given arguments, append it and return the registration's "
@@ -158,10 +158,9 @@ CHECKS["C16"] = {
     "text": "process_log is proved to return '[deep] ' + the formatter's rendering of the configured template, to "
             "evaluate every {field} exactly once as a LOG watch in the paused frame, to use eval_watch's string form "
             "(error text on failure) for it and to collect its watch result; the log action attaches exactly one result "
-            "with that text; LogActionResult.process passes (message, tracepoint id, context id) in their own places.",
+            "with that text; LogActionResult.process passes (message, tracepoint id, context id) in their own places; the logger is looked up among the currently loaded plugins on every use (ConfigService.tracepoint_logger writes nothing); PythonPlugin.log_tracepoint logs the rendered message verbatim followed by the two ids.",
     "note": "string.Formatter.vformat is a trusted model (literal text kept, braces unescaped, one get_field per field; "
-            "checked for an arbitrary field by for-each lifting); the snapshot+log combination is covered up to "
-            "collect() only (see C02).",
+            "checked for an arbitrary field by for-each lifting); the snapshot+log combination is covered by the full _process_action contract (see C02).",
 }
 CHECKS["C18"] = {
     "text": 'BoundedAttributes.__setitem__ is proved against a whole-view specification over the (key order, map) view: frozen -> TypeError and nothing changes; capacity 0 -> only the drop is counted; invalid value -> nothing changes; existing key -> replaced and moved to the end without a drop; full -> the OLDEST entry is evicted and the drop counted; every other key untouched; capacity never exceeded.  __delitem__, __init__ (filled through the same operation, frozen last), merge_in, copy (a copy), the value-cleaning rule and Resource.merge (other wins key by key, schema rule, neither operand modified) are proved likewise.',
